@@ -847,6 +847,86 @@ def gen_protocol_entry(sd):
     return out
 
 
+# ---- sd.py: ServiceDiscover.send_find_services / _service_found (C13) ----
+def gen_find_task(sd):
+    D = sd.ServiceDiscover
+    t = ast.parse(textwrap.dedent(inspect.getsource(D.send_find_services))).body[0]
+    if not isinstance(t, ast.AsyncFunctionDef) or [a.arg for a in t.args.args] != ["self"]:
+        raise Abort("send_find_services: not a coroutine of self")
+    b = [s for s in body_of(t) if not is_noise(s)]
+    if len(b) != 7:
+        raise Abort("send_find_services: unexpected shape")
+    expect_src(b[0], """
+        if not self.watched_services:
+            return
+        """, "send_find_services (nothing watched)")
+    # the comprehension of _build_entries: which services, which TTL, which polarity of the filter
+    be = b[1]
+    if not (isinstance(be, ast.FunctionDef) and be.name == "_build_entries" and not be.args.args and len(be.body) == 1
+            and isinstance(be.body[0], ast.Return) and isinstance(be.body[0].value, ast.ListComp)):
+        raise Abort("_build_entries: unexpected shape")
+    lc = be.body[0].value
+    if len(lc.generators) != 1 or lc.generators[0].is_async or len(lc.generators[0].ifs) != 1:
+        raise Abort("_build_entries: unexpected comprehension")
+    g = lc.generators[0]
+    expect_src(ast.Expr(g.target), "service", "_build_entries (target)")
+    expect_src(ast.Expr(g.iter), "self.watched_services.keys()", "_build_entries (iter)")
+    elt = lc.elt
+    if not (isinstance(elt, ast.Call) and dotted(elt.func) == "service.create_find_entry" and len(elt.args) == 1 and not elt.keywords):
+        raise Abort("_build_entries: unexpected element")
+    ttl = dotted(elt.args[0])
+    if ttl not in ("self.timings.FIND_TTL",):
+        raise Abort("_build_entries: unexpected TTL " + str(ttl))
+    cond = g.ifs[0]
+    neg = False
+    if isinstance(cond, ast.UnaryOp) and isinstance(cond.op, ast.Not):
+        neg, cond = True, cond.operand
+    expect_src(ast.Expr(cond), "self._service_found(service)", "_build_entries (filter)")
+    keep = "negb (found s)" if neg else "found s"
+    f = fn_ast(D._service_found)
+    bf = [s for s in body_of(f) if not is_noise(s)]
+    if [a.arg for a in f.args.args] != ["self", "service"] or len(bf) != 1:
+        raise Abort("_service_found: unexpected shape")
+    expect_src(bf[0], "return any(service.matches_service(s) for s in self.found_services.entries())", "_service_found")
+    expect_src(b[2], """
+        await asyncio.sleep(random.uniform(self.timings.INITIAL_DELAY_MIN, self.timings.INITIAL_DELAY_MAX))
+        """, "send_find_services (initial delay)")
+    round_src = ["find_entries = _build_entries()", """
+        if not find_entries:
+            return
+        """, "self.sd.send_sd(find_entries)"]
+    for st, want in zip(b[3:6], round_src):
+        expect_src(st, want, "send_find_services (first round)")
+    lp = b[6]
+    if not (isinstance(lp, ast.For) and not lp.orelse and len(lp.body) == 4):
+        raise Abort("send_find_services: unexpected loop")
+    expect_src(ast.Expr(lp.target), "i", "send_find_services (loop variable)")
+    expect_src(ast.Expr(lp.iter), "range(self.timings.REPETITIONS_MAX)", "send_find_services (loop range)")
+    sl = lp.body[0]
+    if not (isinstance(sl, ast.Expr) and isinstance(sl.value, ast.Await) and isinstance(sl.value.value, ast.Call)
+            and dotted(sl.value.value.func) == "asyncio.sleep" and len(sl.value.value.args) == 1 and not sl.value.value.keywords):
+        raise Abort("send_find_services: unexpected sleep")
+    d = sl.value.value.args[0]
+    if not (isinstance(d, ast.BinOp) and isinstance(d.op, ast.Mult) and isinstance(d.left, ast.BinOp) and isinstance(d.left.op, ast.Pow)
+            and isinstance(d.left.left, ast.Constant) and type(d.left.left.value) is int and d.left.left.value >= 0
+            and getattr(d.left.right, "id", None) == "i" and dotted(d.right) == "self.timings.REPETITIONS_BASE_DELAY"):
+        raise Abort("send_find_services: unexpected repetition delay")
+    for st, want in zip(lp.body[1:], round_src):
+        expect_src(st, want, "send_find_services (repetition round)")
+    return ["(* ServiceDiscover.send_find_services: the entries of one round, the delay before repetition i, whether repetition i exists.\n"
+            "   found = _service_found (any stored offer matches), mk = Service.create_find_entry, ws = watched_services.keys() *)\n"
+            "Definition gen_find_entries {S E : Type} (found : S -> bool) (mk : S -> N -> E) (find_ttl : N) (ws : list S) : list E :=\n"
+            f"  flat_map (fun s => if {keep} then (mk s find_ttl :: nil) else nil) ws.\n"
+            "Definition gen_service_found {S T : Type} (matches_service : S -> T -> bool) (service : S) (entries : list T) : bool :=\n"
+            "  existsb (matches_service service) entries.\n"
+            f"Definition gen_find_delay (i base_delay : N) : N := N.pow {d.left.left.value} i * base_delay.\n"
+            "Definition gen_find_has_round (i rep_max : N) : bool := i <? rep_max.\n"
+            "(* one round: sleep first (fact FDraw = the initial window, otherwise gen_find_delay), rebuild, stop for good when empty, else send *)\n"
+            "Definition gen_find_round {E W : Type} (entries : list E) (send : list E -> W -> W) (next finish : W -> W) (w : W) : W :=\n"
+            "  match entries with nil => finish w | _ => next (send entries w) end.\n"]
+
+
+
 # ---- sd.py: ServiceDiscoveryProtocol.send_sd / start / stop (C08, C15) ----
 def kw_of(call, name):
     for k in call.keywords:
@@ -1148,7 +1228,7 @@ def main():
         import someip.config as cfg
         import someip.sd as sd
         import someip.service as svc
-        parts = gen_matchers(cfg) + gen_check_received(sd) + gen_assign_outgoing(sd) + gen_skeletons(sd) + gen_inst_subscribe(sd) + gen_subscriber(sd) + gen_timed_store(sd) + gen_queue_send(sd) + gen_find_answer(sd) + gen_protocol_entry(sd) + gen_send_sd(sd) + gen_announcer(sd) + gen_service(svc) + gen_eventgroup_subscription(svc)
+        parts = gen_matchers(cfg) + gen_check_received(sd) + gen_assign_outgoing(sd) + gen_skeletons(sd) + gen_inst_subscribe(sd) + gen_subscriber(sd) + gen_timed_store(sd) + gen_queue_send(sd) + gen_find_answer(sd) + gen_protocol_entry(sd) + gen_send_sd(sd) + gen_announcer(sd) + gen_find_task(sd) + gen_service(svc) + gen_eventgroup_subscription(svc)
     except Abort as exc:
         print("gen_logic: ABORT:", exc)
         return 2
